@@ -32,6 +32,7 @@ BASE_REPLACE = [
     "janetc_cerror:sp_cerror_stub",
     "janetc_error:sp_error_stub",
     "janet_v_grow:sp_nogrow_stub",
+    "janetc_const:sp_const_stub",
 ]
 COMPILE_KEEP = ["janetc_scope", "janetc_popscope", "janetc_popscope_keepslot", "janetc_cslot", "janetc_fopts_default", "janetc_gettarget", "janetc_freeslot"]
 WRAP_KEEP = ["janet_wrap_nil", "janet_truthy", "janet_wrap_number"]
